@@ -15,7 +15,8 @@ proof:          coq/C15/Properties.v (hand model) + coq/C15/run/GenProperties.v 
 search oracle:  written from the property text, independent of the code under test: spheroid surface
                 area and ellipsoid capacitance by numerical QUADRATURE (not the closed forms), volumes,
                 axis ratios, value 1 at aspect ratio 1, monotonicity, continuity at 1 (all shapes),
-                scalar/array agreement, clamp below 1, bitwise non-mutation of the caller's array,
+                scalar/array agreement (also across argument types: int / integer arrays / lists / float32 / 0-d /
+                integer-valued aspect-ratio functions vs the float call), clamp below 1, bitwise non-mutation of the caller's array,
                 root property of findRcrit for constant and radius-dependent aspect ratios.
 """
 import os, sys, json, math, re, shutil, subprocess, importlib, time
@@ -171,6 +172,8 @@ def evaluate_case(c):
         return eval_mutation(SF, c)
     if kind == 'rcrit':
         return eval_rcrit(SF, c)
+    if kind == 'typed':
+        return eval_typed(SF, c)
     raise ValueError('unknown case kind %r' % kind)
 
 
@@ -314,6 +317,87 @@ def eval_mutation(SF, c):
     return []
 
 
+# ---- the same aspect ratio handed over with another type: the result must be the float call's ----------
+TYPED_SCALARS = ('py_int', 'np_int64', 'np_int32', 'np_float32', 'zero_d_int', 'zero_d_float')
+TYPED_ARRAYS = ('int64_array', 'int32_array', 'int_list', 'int_tuple', 'float_list', 'float32_array')
+TYPED_SF = ('sf_int_function', 'sf_int_function_scalar_R', 'sf_int_constant')
+TYPED_CONTAINERS = TYPED_SCALARS + TYPED_ARRAYS + TYPED_SF
+
+
+def typed_value(cont, vals):
+    """the aspect ratio(s) `vals` (whole numbers) in the container / dtype named by `cont`"""
+    v0 = vals[0]
+    return {'py_int': lambda: int(v0), 'np_int64': lambda: np.int64(v0), 'np_int32': lambda: np.int32(v0),
+            'np_float32': lambda: np.float32(v0), 'zero_d_int': lambda: np.array(int(v0)), 'zero_d_float': lambda: np.array(float(v0)),
+            'int64_array': lambda: np.array([int(v) for v in vals], dtype=np.int64),
+            'int32_array': lambda: np.array([int(v) for v in vals], dtype=np.int32),
+            'int_list': lambda: [int(v) for v in vals], 'int_tuple': lambda: tuple(int(v) for v in vals),
+            'float_list': lambda: [float(v) for v in vals],
+            'float32_array': lambda: np.array([float(v) for v in vals], dtype=np.float32)}[cont]()
+
+
+def eval_typed(SF, c):
+    """scalar/array agreement across argument types: a whole-number aspect ratio given as Python int, numpy
+    integer scalar / array, list, float32, 0-d array, or produced by an integer-valued aspect-ratio function
+    of the radius, must give what the float64 call gives (the float64 call is checked against the geometry
+    by the factor cases)"""
+    shape, m, cont = c['shape'], c['method'], c['container']
+    vals = [int(v) for v in c['values']]
+    d = descr(SF, shape)
+    f = getattr(d, m)
+    width = 3 if m == 'normalRadii' else 1
+    ref = np.array([np.atleast_1d(np.array(f(float(v)), dtype=float)) for v in vals], dtype=float).reshape(len(vals), width)
+    rtol = 1e-3 if 'float32' in cont else 4 * EPS
+    hits = []
+
+    def hit(cls, msg, sub):
+        hits.append(('scalar_array_agree', site_of(shape, m), cls, msg, dict(c, values=[int(x) for x in sub])))
+    try:
+        if cont in TYPED_SCALARS:
+            vals = vals[:1]
+            ref = ref[:1]
+            got = np.array(f(typed_value(cont, vals)))
+            want_shape = (3,) if m == 'normalRadii' else ()
+        elif cont in TYPED_ARRAYS:
+            got = np.array(f(typed_value(cont, vals)))
+            want_shape = ((len(vals), 3) if m == 'normalRadii' else (len(vals),)) if len(vals) > 1 else ((3,) if m == 'normalRadii' else ())
+        else:
+            # through ShapeFactor: the aspect ratio is what the user's function of the radius returns
+            r0 = 1e-9
+            sf = SF.ShapeFactor()
+            if cont == 'sf_int_constant':
+                vals, ref = vals[:1], ref[:1]
+                sf.setPrecipitateShape(d, int(vals[0]))
+                got = np.array(getattr(sf, m)(np.array([0.5 * r0])))
+                want_shape = (3,) if m == 'normalRadii' else ()
+            else:
+                lo, hi = (vals + vals)[:2]
+                vals, ref = [lo, hi], np.array([np.atleast_1d(np.array(f(float(v)), dtype=float)) for v in (lo, hi)]).reshape(2, width)
+                sf.setPrecipitateShape(d, lambda R: np.where(np.asarray(R) < r0, int(lo), int(hi)))     # integer-valued step function
+                if cont == 'sf_int_function':
+                    got = np.array(getattr(sf, m)(np.array([0.5 * r0, 2.0 * r0])))
+                    want_shape = (2, 3) if m == 'normalRadii' else (2,)
+                else:
+                    got = np.array([np.array(getattr(sf, m)(0.5 * r0)), np.array(getattr(sf, m)(2.0 * r0))])
+                    want_shape = got.shape if got.shape == ((2, 3) if m == 'normalRadii' else (2,)) else None
+    except Exception as e:
+        return [('no_internal_error', site_of(shape, m), type(e).__name__,
+                 '%s.%s(%s %r) raised %s: %s' % (shape, m, cont, vals, type(e).__name__, e), dict(c))]
+    if got.dtype.kind not in 'fiu':
+        hit('dtype', '%s.%s(%s %r) returns dtype %s: %r; the float call gives %r' % (shape, m, cont, vals, got.dtype, got.tolist(), ref.squeeze().tolist()), vals)
+        return hits
+    if want_shape is None or got.shape != want_shape:
+        hit('shape', '%s.%s(%s %r): result shape %r' % (shape, m, cont, vals, got.shape), vals)
+        return hits
+    g = got.astype(float).reshape(len(vals), width)
+    for i, v in enumerate(vals):
+        if not np.all(np.abs(g[i] - ref[i]) <= rtol * np.abs(ref[i])):
+            hit('value', '%s.%s(%s %r): aspect ratio %d gives %r (result dtype %s), the float call %s(%r) gives %r'
+                % (shape, m, cont, vals, v, g[i].squeeze().tolist(), got.dtype, m, float(v), ref[i].squeeze().tolist()), [v] if cont not in ('sf_int_function', 'sf_int_function_scalar_R') else vals)
+            break
+    return hits
+
+
 def eval_rcrit(SF, c):
     shape = c['shape']
     Rs, Rmax, tol = (float.fromhex(c[k]) if isinstance(c[k], str) else float(c[k]) for k in ('Rs', 'Rmax', 'tol'))
@@ -410,6 +494,28 @@ def gen_mutation_cases(rng, quick):
     return cases
 
 
+def gen_typed_cases(rng, quick):
+    cases = []
+    for s in SHAPES:
+        for m in FACTORS + ['normalRadii']:
+            for cont in TYPED_CONTAINERS:
+                extra = [int(x) for x in rng.integers(2, 101, 2 if quick else 12)]
+                if cont in TYPED_SCALARS or cont == 'sf_int_constant':
+                    pool = [3, 1, 2, 40, 100, 0] + extra
+                    vs = [pool[int(rng.integers(0, len(pool)))]] if quick else pool
+                    cases += [{'kind': 'typed', 'shape': s, 'method': m, 'container': cont, 'values': [v]} for v in (vs if not quick else [3] + vs)]
+                elif cont in TYPED_SF:
+                    cases.append({'kind': 'typed', 'shape': s, 'method': m, 'container': cont, 'values': [2, 5]})
+                    cases.append({'kind': 'typed', 'shape': s, 'method': m, 'container': cont, 'values': [1, extra[0]]})
+                else:
+                    vals = [1, 2, 3, 5, 10, 40, 100, 0, -2] + extra
+                    if 'float32' in cont:
+                        vals = [1, 2, 3, 5, 10, 0] + [min(v, 16) for v in extra]       # float32 accuracy: stay away from 1 - ecc ~ 1e-5
+                    cases.append({'kind': 'typed', 'shape': s, 'method': m, 'container': cont, 'values': vals})
+                    cases.append({'kind': 'typed', 'shape': s, 'method': m, 'container': cont, 'values': [extra[0]]})
+    return cases
+
+
 def gen_rcrit_case(rng, i):
     shape = SHAPES[i % 4]
     Rs = float(10.0 ** rng.uniform(-10, -8))
@@ -449,13 +555,15 @@ def nontrivial(c):
         return bool(c.get('_bracketed')) or c['aspect']['type'] == 'const'
     if c['kind'] == 'mutation':
         return any(float(v) < 1 for v in c['values'])
+    if c['kind'] == 'typed':
+        return c['shape'] != 'sphere' and any(int(v) > 1 for v in c['values'])
     return True
 
 
 def search(ctx, quick, budget=1.0):
     rng = ctx.rng
     hits = []
-    cases = gen_factor_cases(rng, quick) + gen_continuity_cases(rng, quick) + gen_mutation_cases(rng, quick)
+    cases = gen_factor_cases(rng, quick) + gen_continuity_cases(rng, quick) + gen_mutation_cases(rng, quick) + gen_typed_cases(rng, quick)
     nr = int((48 if quick else 6000) * budget)
     cases += [gen_rcrit_case(rng, i) for i in range(nr)]
     for c in cases:
@@ -470,8 +578,12 @@ def search(ctx, quick, budget=1.0):
         if c['kind'] == 'rcrit':
             ctx.hist('aspect', c['aspect']['type'])
             ctx.hist('rcrit_bracketed', bool(c.get('_bracketed')))
+        if c['kind'] == 'typed':
+            ctx.hist('typed_container', c['container'])
         if c['kind'] in ('factors', 'rcrit'):
             ctx.sample(key, limit=6)
+        if c['kind'] == 'typed' and c['container'] == 'int64_array' and len(c['values']) > 1:
+            ctx.sample(key, limit=8)
         hits += hs
     return hits, len(cases)
 
@@ -739,7 +851,7 @@ def run(ctx):
     quick = ctx.quick
     ctx.cov['rule'] = ('factor cases: four shapes x arrays (length 1, 2, 5, many) of aspect ratios from {dyadic values, 1 + 2^-k, log-uniform in [1,100], '
                        '1 + 10^U(-9,-1), values below 1 incl. 0 and negatives}, every public function called on the array and on each scalar; '
-                       'continuity cases f(1) vs f(1 + 2^-k); argument-mutation cases (float / int / 0-d / view arrays, via the description and via ShapeFactor); '
+                       'continuity cases f(1) vs f(1 + 2^-k); argument-type cases (whole-number aspect ratios as Python int, np.int64 / np.int32 / np.float32 scalars, 0-d arrays, int64 / int32 / float32 arrays, lists, tuples, integer-valued aspect-ratio functions and integer constants through ShapeFactor) compared with the float64 call; argument-mutation cases (float / int / 0-d / view arrays, via the description and via ShapeFactor); '
                        'critical-radius cases: R_sphere in [1e-10, 1e-8], Rmax/R_sphere in [1.2, 30], constant and four families of radius-dependent aspect ratios, '
                        'tolerances 1e-2 .. 1e-10, shape selected by instance / by name / by the set...Shape methods; bisection traces replayed bit-exactly in Coq; non-trivial = non-spherical shape with an aspect ratio above 1 / '
                        'bracketed root or constant aspect ratio / array with an entry below 1; distinct by hash of the exact input')
@@ -854,7 +966,7 @@ def replay(ctx, obj):
     c = obj.get('input') or obj
     c = {k: v for k, v in c.items() if k != 'corpus'}
     kind = c.get('kind')
-    if kind in ('factors', 'continuity', 'mutation', 'rcrit'):
+    if kind in ('factors', 'continuity', 'mutation', 'rcrit', 'typed'):
         hits = evaluate_case(c)
         for h in hits:
             print('replay:', h[0], h[1], h[2], '-', h[3])
